@@ -6,7 +6,6 @@ package main
 import (
 	"errors"
 	"fmt"
-	"io"
 	"net"
 	"sync"
 	"time"
@@ -31,7 +30,8 @@ type closeRec struct {
 	mu     sync.Mutex
 	clk    clock
 	hasClk bool
-	done   bool // the history is over: a close from now on is the harness's own cleanup
+	done   bool  // the history is over: a close from now on is the harness's own cleanup
+	got    int32 // data callbacks seen (atomic)
 	closed bool
 	count  int // close notifications received while the history was running
 	cause  string
@@ -46,9 +46,9 @@ func causeOf(err error) string {
 	switch {
 	case err == nil:
 		return "user"
-	case errors.Is(err, nbio.ErrReadTimeout):
+	case err == nbio.ErrReadTimeout: // the exact error values
 		return "rto"
-	case errors.Is(err, nbio.ErrWriteTimeout):
+	case err == nbio.ErrWriteTimeout:
 		return "wto"
 	}
 	return "other:" + err.Error()
@@ -97,6 +97,7 @@ type connEnv struct {
 	conns sync.Map     // remote address of the accepted connection -> *nbio.Conn
 	ln    net.Listener // plain listener for the histories whose nbio side dials
 	peers sync.Map     // remote address of a connection accepted by ln -> net.Conn
+	x     xportEnv     // the other transports (transport.go)
 }
 
 func startConnEnv() (*connEnv, error) {
@@ -105,12 +106,7 @@ func startConnEnv() (*connEnv, error) {
 	g.OnOpen(func(c *nbio.Conn) {
 		env.conns.Store(c.RemoteAddr().String(), c)
 	})
-	g.OnData(func(c *nbio.Conn, data []byte) {})
-	g.OnClose(func(c *nbio.Conn, err error) {
-		if r, ok := c.Session().(*closeRec); ok {
-			r.notify(err)
-		}
-	})
+	env.handlers(g)
 	if err := g.Start(); err != nil {
 		return nil, err
 	}
@@ -131,43 +127,18 @@ func startConnEnv() (*connEnv, error) {
 			env.peers.Store(c.RemoteAddr().String(), c)
 		}
 	}()
+	if err := env.startXport(); err != nil {
+		ln.Close()
+		g.Stop()
+		return nil, err
+	}
 	return env, nil
 }
 
 func (env *connEnv) stop() {
+	env.stopXport()
 	env.ln.Close()
 	env.g.Stop()
-}
-
-// dialed: the nbio side dials (DialAsyncTimeout: its dial timer lives in the write-timer slot until the connection is
-// established); returns the nbio connection and the plain connection accepted by the listener
-func (env *connEnv) dialed() (*nbio.Conn, net.Conn, error) {
-	type res struct {
-		c   *nbio.Conn
-		err error
-	}
-	ch := make(chan res, 1)
-	if err := env.g.DialAsyncTimeout("tcp", env.ln.Addr().String(), 3*time.Second, func(c *nbio.Conn, err error) { ch <- res{c, err} }); err != nil {
-		return nil, nil, err
-	}
-	var r res
-	select {
-	case r = <-ch:
-	case <-time.After(5 * time.Second):
-		return nil, nil, errors.New("DialAsyncTimeout: no callback within 5 s")
-	}
-	if r.err != nil {
-		return nil, nil, r.err
-	}
-	key := r.c.LocalAddr().String()
-	env.conns.Delete(key)
-	for i := 0; i < 20000; i++ {
-		if v, ok := env.peers.LoadAndDelete(key); ok {
-			return r.c, v.(net.Conn), nil
-		}
-		time.Sleep(250 * time.Microsecond)
-	}
-	return nil, nil, errors.New("the listener did not accept the dialed connection")
 }
 
 func (env *connEnv) accepted(remote string) *nbio.Conn {
@@ -185,51 +156,42 @@ var smallPayload = []byte("0123456789")
 
 func runConn(rd *round, env *connEnv, p *plan, phase time.Duration) *observation {
 	o := &observation{StrictCause: true}
-	var cl net.Conn
-	var c *nbio.Conn
-	var err error
-	if p.Dialed {
-		if c, cl, err = env.dialed(); err != nil {
-			o.Infra = "dial: " + err.Error()
-			return o
-		}
-		defer cl.Close()
-	} else {
-		cl, err = net.Dial("tcp", env.addr)
-		if err != nil {
-			o.Infra = "dial: " + err.Error()
-			return o
-		}
-		defer cl.Close()
-		c = env.accepted(cl.LocalAddr().String())
-		if c == nil {
-			o.Infra = "the engine did not report the accepted connection"
-			return o
-		}
+	c, pr, err := env.open(p.Transport)
+	if err != nil {
+		o.Infra = "open " + p.Transport + ": " + err.Error()
+		return o
 	}
+	defer pr.close()
 	rec := newCloseRec()
 	c.SetSession(rec)
-	reading := false
-	startReader := func() {
-		if !reading {
-			reading = true
-			go io.Copy(io.Discard, cl)
-		}
-	}
+	startReader := pr.discard
 	if p.NoRead {
-		_ = cl.(*net.TCPConn).SetReadBuffer(4096)
+		pr.setReadBuffer(4096)
 		_ = c.SetWriteBuffer(4096)
 	} else {
 		startReader()
 	}
+	if p.Pre {
+		if err := preTraffic(c, pr, rec, isUDP(p.Transport)); err != nil {
+			o.Infra = "traffic before the history: " + err.Error()
+			return o
+		}
+	}
 	clk := clock{time.Now().Add(phase + 2*time.Millisecond)}
+	if p.Transport == "udp-session" {
+		// the engine armed the session's idle timer when it opened it (and again on every datagram)
+		far := int64(udpSessionIdle / time.Microsecond)
+		o.Ops = append(o.Ops, obsOp{Name: "UDP session opened: the engine sets the read deadline now + UDPReadTimeout (1 h)",
+			Cmds: []string{fmt.Sprintf("ka r %d", far)}, B: origin - 2000, A: origin - 1000,
+			Eff: []effect{{Kind: "set", Dir: dirR, Lo: origin - 2000000 + far, Hi: origin + far}}, Chk: &stateChk{R: true, Res: "ok"}})
+	}
 	clk.sleepUntil(origin)
-	if p.Dialed {
+	if p.Transport == "tcp-dialed-timeout" || p.Transport == "tcp-dialed" || p.Transport == "udp-dialasync" {
 		// the connection is established (the dial callback has run) and nobody has set a deadline: the dial timer, which
 		// lives in the write-timer slot, must be gone.  No timing is involved: this is reported without a re-run.
 		if _, wA, _, closed := nbio.VerifDeadlineState(c); wA && !closed {
 			o.Direct = append(o.Direct, problem{"oracle", "stale-dial-timer",
-				fmt.Sprintf("DialAsyncTimeout(3 s) to a loopback listener: %d us after the dial callback reported success the connection's write timer (the dial timer, error ErrDialTimeout) is still armed although nobody set a deadline; it will close the established connection with \"dial timeout\", and a later SetWriteDeadline only re-arms it with that error", clk.us()-origin+int64((phase+2*time.Millisecond)/time.Microsecond))})
+				fmt.Sprintf("%s to a loopback peer: %d us after the dial callback reported success the connection's write timer (the dial timer, error ErrDialTimeout) is still armed although nobody set a deadline; it will close the established connection with \"dial timeout\", and a later SetWriteDeadline only re-arms it with that error", p.Transport, clk.us()-origin+int64((phase+2*time.Millisecond)/time.Microsecond))})
 		}
 	}
 	for _, po := range p.Ops {
@@ -285,7 +247,7 @@ func runConn(rd *round, env *connEnv, p *plan, phase time.Duration) *observation
 				op.Name = fmt.Sprintf("Writev(4+%d bytes)", len(data)-4)
 			}
 		case "drain":
-			_ = cl.(*net.TCPConn).SetReadBuffer(1 << 20)
+			pr.setReadBuffer(1 << 20)
 			_ = c.SetWriteBuffer(1 << 20)
 			startReader()
 			for i := 0; i < 4000; i++ {
